@@ -23,13 +23,17 @@ OPTS = [(0, 0, 0), (0, 1, 0), (1, 0, 0), (1, 1, 0), (1, 0, 1), (1, 1, 1)]
 
 
 def big_dag(rng, n, bits=8):
-    dag = [(-1, cells.rand_bits(rng, bits), [])]
-    for i in range(1, n):
-        k = rng.choice([1, 1, 2, 2, 3, 4])
-        refs = [max(0, i - 1 - rng.randrange(min(i, 8))) for _ in range(k)]
-        dag.append((-1, cells.rand_bits(rng, bits), refs))
-    # make every cell reachable from the last: chain through i-1
-    return [(t, b, ([i - 1] + r[1:]) if i else r) for i, (t, b, r) in enumerate(dag)]
+    """exactly n distinct cells, all reachable from the root, with sharing, of depth about log3 n (the depth limit of
+    1023 must not be what the case exercises): heap numbering with three tree children per node plus one extra
+    reference to a random node of a deeper level; returned in children-first order"""
+    nodes = []
+    for i in range(n):
+        kids = [3 * i + 1 + k for k in range(3) if 3 * i + 1 + k < n]
+        if 3 * i + 4 < n and rng.random() < 0.5:
+            kids.append(rng.randrange(3 * i + 4, n))          # a node below the children's level start: no cycle
+        tag = format(i, "020b")
+        nodes.append((kids, (cells.rand_bits(rng, bits) + tag) if bits + 20 <= 1023 else cells.rand_bits(rng, bits - 20) + tag))
+    return [(-1, b, [n - 1 - k for k in kids]) for kids, b in reversed(nodes)]
 
 
 def diamond(k):
@@ -71,11 +75,20 @@ def run(ctx):
         opts = OPTS if len(d) < 400 else [rng.choice(OPTS)]
         for o in (opts if ctx.thorough() or len(d) > 60 else rng.sample(OPTS, 3)):
             ser_cases.append((d,) + o)
-    impl_s, model_s = ctx.correspond(
-        "to_boc", ser_cases, boc.py_to_boc,
+    # the extracted model's traversal is super-quadratic in the number of cells (membership by hash over lists): bags of
+    # more than MODEL_MAX_CELLS cells are serialised, parsed and round-tripped by the implementation only (oracle below)
+    MODEL_MAX_CELLS = 3000
+    for_model = [c for c in ser_cases if len(c[0]) <= MODEL_MAX_CELLS]
+    impl_only = [c for c in ser_cases if len(c[0]) > MODEL_MAX_CELLS]
+    impl_m, model_s = ctx.correspond(
+        "to_boc", for_model, boc.py_to_boc,
         lambda c: f"boc_ser {c[1]} {c[2]} {c[3]} {cells.dag_line(c[0])}", lambda c: len(c[0]) > 1, timeout_s=300)
+    impl_o = [core.call_impl(boc.py_to_boc, c, 600) for c in impl_only]
+    ser_cases = for_model + impl_only
+    impl_s = impl_m + impl_o
+    ctx.extra["bags_beyond_the_model_limit"] = len(impl_only)
     small, big = [], []
-    for c, a in zip(ser_cases, impl_s):
+    for c, a in zip(for_model, impl_m):
         if a.startswith("ok "):
             (small if cells.tree_size(c[0]) <= 1500 and cells.dag_depth(c[0]) < 200 else big).append(a[3:])
     ctx.correspond("from_boc", small, boc.py_parse, lambda h: f"boc_parse {h}", lambda h: len(h) > 40)
